@@ -108,6 +108,8 @@ class PyTranslator:
         if isinstance(n, ast.Constant):
             if isinstance(n.value, (int, float)) and not isinstance(n.value, bool):
                 return self.alg.const(n.value)
+            if isinstance(n.value, complex) and isinstance(self.alg, SymAlg):
+                return self.alg.const(n.value.real) + sp.I * self.alg.const(n.value.imag) if n.value.real else sp.I * self.alg.const(n.value.imag)
             raise AnalysisError(f"{self.where}: unsupported constant {n.value!r}")
         if isinstance(n, ast.Name):
             if n.id in env:
